@@ -517,7 +517,12 @@ func genFsSeq(rng *simrt.Rand, maxOps int, acBias bool) (dirs []string, ops []Fs
 		}
 		return out
 	}
+	huge := false
 	size := func() int {
+		if !huge && rng.Chance(1, 60) {
+			huge = true // one chunk of more than a mebibyte per history at most
+			return 1200000
+		}
 		if rng.Chance(3, 4) {
 			return sizePool[rng.Intn(5)]
 		}
@@ -586,7 +591,7 @@ func genFsSeq(rng *simrt.Rand, maxOps int, acBias bool) (dirs []string, ops []Fs
 			if l > 0 && rng.Chance(1, 4) {
 				off = l - 1
 			}
-			cnt := []uint64{0, 1, l, l + 1, l / 2, 4096, 100000}[rng.Intn(7)]
+			cnt := []uint64{0, 1, l, l + 1, l / 2, 4096, 100000, 1 << 21}[rng.Intn(8)]
 			op = FsOp{K: "readat", H: h, Off: off, Cnt: cnt, Scr: rng.Chance(1, 3)}
 		case 11:
 			if len(ex) == 0 {
